@@ -142,7 +142,10 @@ func (m *Model) credit(h uint32, kind, owner, addr string, t int, amt uint64, re
 func (m *Model) debit(h uint32, kind, owner, addr string, t int, amt uint64, ref string) {
 	b := m.bal(addr)
 	if b[t] < amt {
-		panic(fmt.Sprintf("model bug: debit %d of %s from %s with %d", amt, Tickers[t-1], addr, b[t]))
+		// only reachable inside a batch shape the model does not specify (legacy batch that
+		// spends PEG credited later by the same batch): flag the block, never panic
+		m.Unspec = append(m.Unspec, "model-underflow:"+kind)
+		amt = b[t]
 	}
 	b[t] -= amt
 	m.Events = append(m.Events, Event{h, kind, addr, t, -int64(amt), owner, ref})
@@ -248,18 +251,20 @@ func (m *Model) Averages(L uint32) map[int]uint64 {
 // nodes then disagree, so the model does not specify the outcome).
 func (m *Model) unratedInWindow(L uint32) bool {
 	P := m.Era.AvgPeriod
-	start := int64(L) - int64(2*P)
-	if start <= int64(m.Era.Pegnet) {
-		start = int64(m.Era.Pegnet) + 1
+	if len(m.rated) == 0 {
+		return false
 	}
-	first := uint32(0)
-	if len(m.rated) > 0 {
-		first = m.rated[0]
+	first := m.rated[0]
+	// while the window [L-P+1, L] still reaches back to the first rated height, a
+	// reload by height and the incremental cache hold the same samples
+	if int64(L)-int64(P)+1 <= int64(first) {
+		return false
+	}
+	start := int64(L) - int64(2*P)
+	if start < int64(first) {
+		start = int64(first)
 	}
 	for h := uint32(start); h <= L; h++ {
-		if h < first {
-			continue
-		}
 		if _, ok := m.Rates[h]; !ok {
 			return true
 		}
